@@ -256,6 +256,19 @@ func placeholder(m m3thrift.Metric) m3thrift.Metric {
 	return p
 }
 
+// batchSink is the handler behind the generated processor.
+type batchSink struct {
+	got      m3thrift.MetricBatch
+	n, total int
+}
+
+func (b *batchSink) EmitMetricBatchV2(batch m3thrift.MetricBatch) error {
+	b.got = batch
+	b.n++
+	b.total++
+	return nil
+}
+
 func run(c Case) (pbt.Outcome, error) {
 	var errs pbt.Errs
 	var out pbt.Outcome
@@ -293,6 +306,25 @@ func run(c Case) (pbt.Outcome, error) {
 	// message of the case, writing to a transport of its own
 	cmem := thrift.NewTMemoryBuffer()
 	cli := m3thrift.NewM3ClientFactory(cmem, fac)
+	// ... and the generated server side: ONE processor decodes every message of the case and hands
+	// the batch to its handler
+	sink := &batchSink{}
+	proc := m3thrift.NewM3Processor(sink)
+	viaProcessor := func(ii int, enc []byte, mb m3thrift.MetricBatch) {
+		sink.got, sink.n = m3thrift.MetricBatch{}, 0
+		ok, perr := proc.Process(decProtoFor(enc), fac.GetProtocol(thrift.NewTMemoryBuffer()))
+		if perr != nil || !ok {
+			errs.Addf("item %d: the processor could not handle the message: ok=%v err=%v", ii, ok, perr)
+			return
+		}
+		if sink.n != 1 {
+			errs.Addf("item %d: the processor called its handler %d times for one message", ii, sink.n)
+			return
+		}
+		if s := eqBatch(mb, sink.got); s != "" {
+			errs.Addf("item %d: decoded by the processor (message number %d through it): %s", ii, sink.total, s)
+		}
+	}
 	failed := 0
 	for ii, it := range c.Items {
 		mb := toBatch(it.Batch)
@@ -409,6 +441,7 @@ func run(c Case) (pbt.Outcome, error) {
 			if err := dp.ReadMessageEnd(); err != nil {
 				errs.Addf("item %d (client): ReadMessageEnd %v", ii, err)
 			}
+			viaProcessor(ii, enc, mb)
 		case "message":
 			write := func(p thrift.TProtocol) error {
 				if err := p.WriteMessageBegin("emitMetricBatchV2", thrift.ONEWAY, it.SeqID); err != nil {
@@ -443,6 +476,7 @@ func run(c Case) (pbt.Outcome, error) {
 			if err := dp.ReadMessageEnd(); err != nil {
 				errs.Addf("item %d (message): ReadMessageEnd %v", ii, err)
 			}
+			viaProcessor(ii, enc, mb)
 		}
 		// placeholder bound, per metric, for metrics shaped as the reporter builds them
 		for mi, m := range mb.Metrics {
@@ -528,7 +562,7 @@ func run(c Case) (pbt.Outcome, error) {
 func TestC16(t *testing.T) {
 	pbt.Main(t, pbt.Prop[Case]{
 		ID: "C16", Name: "thrift",
-		Rule: "rapid-generated sequences of 1..4 structures (single Metric, MetricBatch, full one-way emitMetricBatchV2 message - written by hand or sent through ONE generated M3Client, as the reporter does) written through ONE reused calculating protocol and ONE reused encoding protocol (Compact or Binary): batches of 0..6 (occasionally 14/15/16/127/128/129/500) metrics, 0..16 tags, strings of arbitrary bytes up to 1 KiB incl. varint-length boundaries, int64/float64 extremes, optional fields present/absent/empty, sequence ids at varint boundaries. Oracles: decode(encode(x)) == x (nil == empty list), calc(x) == len(encode(x)), calc(placeholder with maximal own-kind value and timestamp) >= len(encode(real values)). Non-trivial: a batch with >=2 metrics of different tag counts, or a value needing the maximal varint. Distinct: FNV-64 of the case JSON.",
+		Rule: "rapid-generated sequences of 1..4 structures (single Metric, MetricBatch, full one-way emitMetricBatchV2 message - written by hand or sent through ONE generated M3Client, as the reporter does; every message is also decoded by ONE generated M3Processor) written through ONE reused calculating protocol and ONE reused encoding protocol (Compact or Binary): batches of 0..6 (occasionally 14/15/16/127/128/129/500) metrics, 0..16 tags, strings of arbitrary bytes up to 1 KiB incl. varint-length boundaries, int64/float64 extremes, optional fields present/absent/empty, sequence ids at varint boundaries. Oracles: decode(encode(x)) == x (nil == empty list), calc(x) == len(encode(x)), calc(placeholder with maximal own-kind value and timestamp) >= len(encode(real values)). Non-trivial: a batch with >=2 metrics of different tag counts, or a value needing the maximal varint. Distinct: FNV-64 of the case JSON.",
 		Gen:  gen, Run: run, HangAfter: 20 * time.Second,
 	})
 }
